@@ -738,7 +738,7 @@ def c15(tier):
           'poll, ping_timeout, close_timeout symbolic or None or 0): Poll iff due and gap in [p, 2p); Ping iff a multiple of ping_rate was passed since the '
           'last one and not closing; Unresponsive iff more than t since the last Pong; forced end iff close_timeout elapsed, and by c + p; invariant '
           're-established - so the bounded-K conclusions hold for sessions of any length; ')
-    for r in ([0, 1, 7] if q else [0, 0.5, 1, 7, 30, 0.1]):
+    for r in ([0, 1, 7] if q else [0, 1, 2, 7, 30]):  # (fractional rates: housekeeping-step-rsym; a fractional constant makes z3 give up on ToInt)
         specs.append(ST('housekeeping-step-r%s' % r, WS + 'ping_rate=%s' % r, r=r))
     specs.append(ST('housekeeping-step-rsym', WS + 'ping_rate a SYMBOLIC real in (0, 100000] (next_ping = k*r with k a symbolic integer; non-linear)', r='sym'))
     specs.append(ST('housekeeping-step-at-ready', 'base case of the induction: the state _on_ready() leaves at session time 0 satisfies the invariant and the first '
